@@ -85,13 +85,13 @@ structure C05St where
   info : List (Nat × Nat × Nat × Nat) := []     -- entry ↦ (f, arg, root)
   snaps : List (Nat × List Nat) := []           -- per call: running instances at its invocation
   doomed : List Nat := []                       -- instances superseded by a call that has returned
-  lastProbe : List (Nat × Bool) := []           -- entry ↦ cancelled? (latest probe)
   croots : List Nat := []
   ctxR : Reg := { done := [(0, 0)] }            -- the nil context initially (call id 0 is harmless: dominated by any real call)
   fnR : Reg := { done := [(0, 0)] }
   svR : Reg := { done := [(0, 0)] }             -- stored state (StateRoutineContainer)
   gotState : Option Nat := none                 -- result of a GetState with no state change in flight since
   spend : Nat := 0                              -- SetState / SwapValue calls in flight
+  clears : List Nat := []                       -- SetContext(nil, _) / ClearContext calls
 deriving Repr
 
 def Res.superseded : Op → Res → Bool
@@ -105,8 +105,6 @@ def Res.superseded : Op → Res → Bool
 
 def lookupInfo (l : List (Nat × Nat × Nat × Nat)) (k : Nat) : Option (Nat × Nat × Nat) :=
   (l.find? (·.1 == k)).map (·.2)
-
-def lookupProbe (l : List (Nat × Bool)) (k : Nat) : Option Bool := (l.find? (·.1 == k)).map (·.2)
 
 /-- **C05**: (1) once a superseding call has returned, every instance that was executing when it was invoked sees
 a cancelled context, and an instance seen with a live context stems from a possibly-current context, routine and
@@ -124,7 +122,7 @@ def monC05 : ObsMonitor Obs C05St where
     | .inv a op =>
       let ms := { ms with snaps := (a, ms.running) :: ms.snaps }
       (match op with
-       | .setContext c _ => some { ms with ctxR := ms.ctxR.inv a c }
+       | .setContext c _ => some { ms with ctxR := ms.ctxR.inv a c, clears := if c == 0 then a :: ms.clears else ms.clears }
        | .setRoutine f => some { ms with fnR := ms.fnR.inv a f }
        | .setStateRoutine f => some { ms with fnR := ms.fnR.inv a f }
        | .setState v => some { ms with gotState := none, spend := ms.spend + 1, svR := ms.svR.inv a v }
@@ -145,6 +143,9 @@ def monC05 : ObsMonitor Obs C05St where
       (match r with
        | .state v => some { ms with gotState := if ms.spend == 0 then some v else none }
        | .bool true => some { ms with doomed := snap ++ ms.doomed }   -- SetContext / RestartRoutine that acted
+       | .bool false =>
+         -- once ClearContext has returned nothing that was executing may keep a live context, whatever it reports
+         if ms.clears.contains a then some { ms with doomed := snap ++ ms.doomed } else some ms
        | .setR _ _ => some { ms with doomed := snap ++ ms.doomed }
        | .setSR _ _ _ => some { ms with doomed := snap ++ ms.doomed }
        | .setS _ true _ _ => some { ms with doomed := snap ++ ms.doomed }
@@ -159,9 +160,8 @@ def monC05 : ObsMonitor Obs C05St where
                        !(root != 0 && ms.ctxR.vals.contains root && f != 0 && ms.fnR.vals.contains f &&
                          (!ms.cfg.state || (arg != 0 && ms.svR.vals.contains arg)))
                      | none => false) then none
-      else some { ms with lastProbe := (k, c) :: ms.lastProbe }
-    | .quiesce _ run =>
-      let live := run.filter fun k => lookupProbe ms.lastProbe k == some false
+      else some ms
+    | .quiesce _ _ live =>
       (match live with
        | [] => some ms
        | [k] =>
@@ -186,6 +186,7 @@ structure C14St where
   lastCtx : Nat := 0                       -- context of the most recently invoked SetContext
   croots : List Nat := []
   needCause : Bool := false                -- the last reported current exit (success, or error without a pending retry) forbids a new run
+  needS : Bool := false                    -- the last reported current exit was a success: only RestartRoutine or a new routine/state may run it again
   lastExit : Option (Option Nat) := none   -- result of the last untouched instance that returned, no mutating call invoked since
   retryDue : Bool := false                 -- a retry was armed and nothing but the timer may consume it
   expectReset : Nat := 0
@@ -214,7 +215,7 @@ def monC14 : ObsMonitor Obs C14St where
     match o with
     | .cfg c => some { ms with cfg := c }
     | .cbin k _ _ _ =>
-      if ms.needCause then none
+      if ms.needCause || ms.needS then none
       else some { ms with running := ms.running ++ [(k, !ms.pendMut.isEmpty)], retryDue := false }
     | .probeCtx k true => some { ms with running := ms.running.map fun p => if p.1 == k then (p.1, true) else p }
     | .cbout k e =>
@@ -232,7 +233,7 @@ def monC14 : ObsMonitor Obs C14St where
                                                                                    | some (some _) => true
                                                                                    | _ => false) }
     | .bo .reset => some { ms with lastExit := none, expectReset := ms.expectReset - 1,
-                                   needCause := ms.needCause || ms.lastExit == some none }
+                                   needS := ms.needS || ms.lastExit == some none }
     | .envCancel c => some { ms with retryDue := false, croots := c :: ms.croots }
     | .envCancelW a => some { ms with wcancelled := a :: ms.wcancelled }
     | .inv a op =>
@@ -247,13 +248,13 @@ def monC14 : ObsMonitor Obs C14St where
                           lastExit := if quiet then ms.lastExit else none,
                           expectReset := if quiet then ms.expectReset else 0 }
       (match op with
-       | .restart => some { ms with needCause := false, retryDue := false }
+       | .restart => some { ms with needCause := false, needS := false, retryDue := false }
        | .setContext c r =>
          some { ms with lastCtx := c, needCause := if r then false else ms.needCause,
                         retryDue := if r || c == 0 then false else ms.retryDue }
        | .waitExited r => some { ms with doomedAt := (a, ms.doomed) :: ms.doomedAt, rinr := (a, r) :: ms.rinr }
        | .getState => some ms
-       | _ => some { ms with needCause := false, retryDue := false })
+       | _ => some { ms with needCause := false, needS := false, retryDue := false })
     | .ret a r =>
       let ms := { ms with pendMut := ms.pendMut.filter (· != a) }
       (match r with
@@ -282,14 +283,16 @@ def monC14 : ObsMonitor Obs C14St where
           let next := if ms.cfg.ncb ≤ 1 then 0 else 1
           -- with a backoff configured the backoff call (which comes first) tells whose exit this is
           let ms := if ms.cfg.retry then ms
-                    else { ms with lastExit := none, needCause := ms.needCause || ms.lastExit == some e }
+                    else { ms with lastExit := none,
+                                   needCause := ms.needCause || (e.isSome && ms.lastExit == some e),
+                                   needS := ms.needS || (e.isNone && ms.lastExit == some e) }
           (match removeOne ms.unreported e with
            | some l => some { ms with cbNext := next, cbErr := e, unreported := l }
            | none => if e == some 0 then some { ms with cbNext := next, cbErr := e } else none)
       else if j == ms.cbNext && e == ms.cbErr then
         some { ms with cbNext := if j + 1 ≥ ms.cfg.ncb then 0 else j + 1 }
       else none
-    | .quiesce _ _ =>
+    | .quiesce _ _ _ =>
       if ms.retryDue || ms.expectReset != 0 || ms.cbNext != 0 then none else some ms
     | _ => some ms
 
@@ -358,7 +361,7 @@ def monC14h : ObsMonitor Obs C14hSt where
         | .bool true, some p => ms.running.any (·.1 == p.2) && ms.pendMut.isEmpty
         | _, _ => false
       some { ms with expectRun := ms.expectRun || exp }
-    | .quiesce _ run => if ms.expectRun && run.isEmpty then none else some ms
+    | .quiesce _ run _ => if ms.expectRun && run.isEmpty then none else some ms
     | _ => some ms
 
 end UtilModel.Routine
